@@ -275,7 +275,14 @@ def history_c07(case, inc, spec, code, events, end, rundir, res):
             continue
         job = {"inc": inc, "jid": ev["jid"], "reissue": ev["reissue"], "ens": ev["ens"],
                "paths": ev["paths"], "streams": ev["streams"], "restarted": ev["restarted"],
-               "restart_locked": ev["restart_locked"], "workers": ev["workers"]}
+               "restart_locked": ev["restart_locked"], "workers": ev["workers"], "c0": ev.get("c0", 0)}
+        # keys the shipped derivation gives the n-th job of an incarnation started at cstep c0:
+        # child (c0+n), per ensemble position e the move stream (c0+n, e) and the engine stream (c0+n, e, 0)
+        base = job["c0"] + job["jid"] - 1
+        expected_keys = {}
+        for pos, e in enumerate(job["ens"]):
+            expected_keys[(e, "move")] = [base, pos]
+            expected_keys[(e, "engine")] = [base, pos, 0]
         mine = set()
         for s in job["streams"]:
             ident = (s["entropy"], tuple(s["key"]))
@@ -296,11 +303,15 @@ def history_c07(case, inc, spec, code, events, end, rundir, res):
                             # two jobs of one incarnation: never explained by the known finding
                             site = ("restart_several_workers_initiation" if job["restarted"] and
                                     job["workers"] > 1 else "same_incarnation")
-                        elif job["restarted"] and (job["restart_locked"] > 0 or led.get("interrupted")):
+                        elif (job["restarted"] and (job["restart_locked"] > 0 or led.get("interrupted"))
+                              and s["key"] == expected_keys.get((s["ens"], s["label"]))):
                             # the spawn counter is rebuilt from cstep alone: once a history contains
                             # an interruption with jobs in flight it under-counts for ever after, so a
-                            # job may repeat the stream of a job consumed in an EARLIER incarnation
+                            # job may repeat the stream of a job consumed in an EARLIER incarnation.
+                            # Only collisions on exactly the keys that mechanism produces are "known".
                             site = "restart_with_inflight_jobs"
+                        elif job["restarted"] and (job["restart_locked"] > 0 or led.get("interrupted")):
+                            site = "restart_with_inflight_jobs_unexpected_key"
                         elif job["restarted"] and job["workers"] > 1 and old["inc"] == inc:
                             site = "restart_several_workers_initiation"
                         elif job["restarted"]:
